@@ -398,10 +398,37 @@ def all_fields_for_elems(tier):
     return sorted(set(out))
 
 
+def cross_field_prod_cases(rng, n, tables=False):
+    """Prod with a receiver that belongs to ANOTHER field of the same implementation (another degree / another
+    characteristic): the receiver becomes the product in the operands' field"""
+    L = []
+    pairs = [((2, 3), (2, 4)), ((2, 8), (2, 5)), ((2, 2), (2, 12)), ((3, 2), (3, 3)), ((5, 2), (5, 3)), ((3, 3), (7, 2)), ((7, 1), (11, 1)), ((251, 1), (5, 1))]
+    for _ in range(n):
+        (a, b) = rng.choice(pairs)
+        if rng.random() < 0.5:
+            a, b = b, a
+        d0, d1 = field_desc(*a), field_desc(*b)
+        h = H(rng, d0 + "," + d1, snap=True)
+        x, y = h.elem(rand_elem(d0, rng)), h.elem(rand_elem(d0, rng))
+        o1 = h.newe(); h.ops.append("%s=enc@1 %s" % (o1, rand_elem(d1, rng)))
+        o2 = h.newe(); h.ops.append("%s=enc@1 %s" % (o2, rand_elem(d1, rng, special=0)))
+        if tables:
+            h.ops.append("tables@%d %d 1 -" % (rng.randrange(2), rng.randrange(2)))
+        h.ops.append("prod %s %s %s" % (o1, x, y))              # receiver of field 1, operands of field 0
+        h.ops.append("%s=times %s %s" % (h.newe(), o1, x))       # it now lives in field 0
+        c = h.newe(); h.ops.append("%s=copy %s" % (c, x))
+        h.ops.append("prod %s %s %s" % (c, o2, o2))              # the other way round
+        h.ops.append("%s=times %s %s" % (h.newe(), c, o2))
+        h.ops.append("prod %s %s %s" % (o2, x, o2))              # mixed operands: an error, whatever the receiver
+        L.append(h.line())
+    return L
+
+
 def gen_C01(rng, tier):
     L = []
     big = tier == "thorough"
     reps = 12 if big else 3
+    L += cross_field_prod_cases(rng, 150 if big else 40)
     for desc in all_fields_for_elems(tier):
         q = desc_card(desc)
         # exhaustive pairs for tiny fields
@@ -1733,6 +1760,7 @@ def gen_C17(rng, tier):
 
 def gen_C18(rng, tier):
     L = []
+    L += cross_field_prod_cases(rng, 100 if tier == "thorough" else 25, tables=True)
     n = 800 if tier == "thorough" else 150
     pool = [(3, 1), (5, 1), (7, 1), (13, 1), (31, 1), (251, 1), (257, 1), (1021, 1), (3, 2), (3, 3), (5, 2), (7, 2), (3, 4), (11, 2), (5, 3), (13, 2)]
     for _ in range(n):
